@@ -183,9 +183,9 @@ func (tw *templateWriter) write(s string) (r Range, err error) {
 	nl := strings.Count(s, "\n")
 	tw.pos.Line += nl
 	if nl > 0 {
-		tw.pos.Col = len(s) - strings.LastIndex(s, "\n")
+		tw.pos.Col = 1 + utf16Len(s[strings.LastIndex(s, "\n")+1:])
 	} else {
-		tw.pos.Col += len(s)
+		tw.pos.Col += utf16Len(s)
 	}
 
 	_, err = io.WriteString(tw.w, s)
